@@ -499,27 +499,80 @@ func c13r5(p *Program, r *Report) {
 		r.Unresolved("executeQuery: no derived cancelable context")
 		return
 	}
-	// every run/speculate launched from executeQuery gets the derived ctx
+	// the functions that carry an execution: they take a context first and call do, or another such function
+	// (run / speculate today; identified by role so that a rename or a method turned into a function is the same)
+	doFn := p.Func("(*queryExecutor).do")
+	if doFn == nil {
+		r.Unresolved("anchor function (*queryExecutor).do not found")
+		return
+	}
+	starters := map[*FuncInfo]bool{}
+	isCtxFirst := func(f *FuncInfo) bool {
+		if f.Obj == nil {
+			return false
+		}
+		sig := f.Obj.Type().(*types.Signature)
+		return sig.Params().Len() > 0 && strings.HasSuffix(sig.Params().At(0).Type().String(), "context.Context")
+	}
+	callsCarrier := func(f *FuncInfo) bool {
+		for _, c := range callsIn(f.Decl.Body) {
+			if fn := calleeOf(f.Pkg.TypesInfo, c); fn != nil {
+				if t := p.FuncOf(fn); t != nil && (t == doFn || starters[t]) {
+					return true
+				}
+			}
+		}
+		return false
+	}
+	for changed := true; changed; {
+		changed = false
+		for _, f := range p.SortedFuncs() {
+			if f.Pkg != p.Root || f.Decl.Body == nil || f == fi || f == doFn || starters[f] || !isCtxFirst(f) {
+				continue
+			}
+			if callsCarrier(f) {
+				starters[f] = true
+				changed = true
+			}
+		}
+	}
+	isStarterCall := func(inf *types.Info, c *ast.CallExpr) *FuncInfo {
+		if fn := calleeOf(inf, c); fn != nil {
+			if t := p.FuncOf(fn); t != nil && (starters[t] || t == doFn) {
+				return t
+			}
+		}
+		return nil
+	}
+	// every execution launched from executeQuery gets the derived ctx
 	ast.Inspect(fi.Decl.Body, func(x ast.Node) bool {
 		c, ok := x.(*ast.CallExpr)
-		if !ok || !isCallTo(info, c, "(*queryExecutor).run", "(*queryExecutor).speculate") {
+		if !ok {
+			return true
+		}
+		if t := isStarterCall(info, c); t == nil || t == doFn {
 			return true
 		}
 		r.Check(len(c.Args) > 0 && isIdentOf(info, c.Args[0], ctxObj), c, "(*queryExecutor).executeQuery passes the cancelable context to "+exprStr(c.Fun), "derived ctx", "an execution is started on "+exprStr(c.Args[0])+" instead of the derived cancelable context: it is not stopped when the caller has its result")
 		return true
 	})
-	// run and speculate use their ctx parameter for everything they start / do
-	for _, name := range []string{"(*queryExecutor).run", "(*queryExecutor).speculate"} {
-		f2 := r.NeedFunc(name)
-		if f2 == nil {
-			continue
-		}
+	// the carriers use their ctx parameter for everything they start / do
+	var carriers []*FuncInfo
+	for f := range starters {
+		carriers = append(carriers, f)
+	}
+	sortFuncs(carriers)
+	if len(carriers) == 0 {
+		r.Unresolved("no function carries an execution (takes a context and calls do)")
+	}
+	for _, f2 := range carriers {
+		name := f2.Name
 		i2 := f2.Pkg.TypesInfo
 		po := paramObj(i2, f2.Decl.Type, 0)
 		n := 0
 		ast.Inspect(f2.Decl.Body, func(x ast.Node) bool {
 			c, ok := x.(*ast.CallExpr)
-			if !ok || !isCallTo(i2, c, "(*queryExecutor).do", "(*queryExecutor).run") {
+			if !ok || isStarterCall(i2, c) == nil {
 				return true
 			}
 			n++
@@ -532,7 +585,23 @@ func c13r5(p *Program, r *Report) {
 		}
 	}
 	// run: the send of the result is guarded by ctx.Done()
-	if run := r.NeedFunc("(*queryExecutor).run"); run != nil {
+	var run *FuncInfo
+	for _, f := range carriers {
+		hasSend := false
+		ast.Inspect(f.Decl.Body, func(x ast.Node) bool {
+			if _, isSend := x.(*ast.SendStmt); isSend {
+				hasSend = true
+			}
+			return true
+		})
+		if hasSend && run == nil {
+			run = f
+		}
+	}
+	if run == nil {
+		r.Unresolved("no carrier of an execution sends its result on a channel")
+	}
+	if run != nil {
 		ri := run.Pkg.TypesInfo
 		okSend := false
 		ast.Inspect(run.Decl.Body, func(x ast.Node) bool {
